@@ -133,6 +133,40 @@ class Folder:
                 if isinstance(sep, bytes) and isinstance(items, (list, tuple)) and all(isinstance(i, bytes) for i in items):
                     return sep.join(items)
                 return UNKNOWN
+            if isinstance(fn, ast.Attribute) and fn.attr in ('lower', 'upper', 'strip', 'lstrip', 'rstrip') and not e.args and not e.keywords:
+                base_s = self._fold(fn.value, mod, cls, env)
+                return getattr(str(base_s), fn.attr)() if isinstance(base_s, str) else UNKNOWN
+            if isinstance(fn, ast.Name) and fn.id in ('enumerate', 'zip', 'list', 'tuple', 'sorted', 'reversed') and e.args:
+                seqs = [self._fold(a, mod, cls, env) for a in e.args]
+                kw = {k.arg: self._fold(k.value, mod, cls, env) for k in e.keywords}
+                if all(isinstance(x, (list, tuple, str, bytes)) for x in seqs[:1]) and not any(v is UNKNOWN for v in kw.values()):
+                    try:
+                        if fn.id == 'enumerate' and len(seqs) <= 2 and (len(seqs) == 1 or isinstance(seqs[1], int)):
+                            return [tuple(p_) for p_ in enumerate(seqs[0], seqs[1] if len(seqs) == 2 else kw.get('start', 0))]
+                        if fn.id == 'zip' and all(isinstance(x, (list, tuple, str, bytes)) for x in seqs) and not kw:
+                            return [tuple(p_) for p_ in zip(*seqs)]
+                        if fn.id in ('list', 'tuple') and len(seqs) == 1 and not kw and not isinstance(seqs[0], (str, bytes)):
+                            return list(seqs[0]) if fn.id == 'list' else tuple(seqs[0])
+                        if fn.id == 'sorted' and len(seqs) == 1 and not kw:
+                            return sorted(seqs[0])
+                        if fn.id == 'reversed' and len(seqs) == 1 and not kw:
+                            return list(reversed(seqs[0]))
+                    except TypeError:
+                        return UNKNOWN
+            if isinstance(fn, ast.Name) and fn.id == 'vars' and len(e.args) == 1 and not e.keywords:
+                obj = self._fold(e.args[0], mod, cls, env)
+                return obj if isinstance(obj, dict) else UNKNOWN
+            if isinstance(fn, ast.Attribute) and fn.attr == 'get' and 1 <= len(e.args) <= 2 and not e.keywords:
+                obj = self._fold(fn.value, mod, cls, env)
+                if isinstance(obj, dict):
+                    k = self._fold(e.args[0], mod, cls, env)
+                    dflt = self._fold(e.args[1], mod, cls, env) if len(e.args) == 2 else None
+                    if k is UNKNOWN or dflt is UNKNOWN:
+                        return UNKNOWN
+                    try:
+                        return obj.get(k, dflt)
+                    except TypeError:
+                        return UNKNOWN
             if isinstance(fn, ast.Name) and fn.id in ('any', 'all') and len(e.args) == 1 and not e.keywords:
                 items = self._fold(e.args[0], mod, cls, env)
                 if isinstance(items, (list, tuple)) and not any(isinstance(i, ClassRef) for i in items):
@@ -280,6 +314,8 @@ class Folder:
                     return l >= r
                 if isinstance(op, (ast.Is, ast.IsNot)) and (l is None or r is None or isinstance(l, bool) or isinstance(r, bool)):
                     return (l is r) if isinstance(op, ast.Is) else (l is not r)
+                if isinstance(op, (ast.Is, ast.IsNot)) and isinstance(l, str) and isinstance(r, str) and (hasattr(l, 'value') or hasattr(r, 'value')):
+                    return (l == r) if isinstance(op, ast.Is) else (l != r)
                 if isinstance(op, ast.In) and isinstance(r, (tuple, list, set, frozenset, dict)):
                     return l in r
                 if isinstance(op, ast.NotIn) and isinstance(r, (tuple, list, set, frozenset, dict)):
@@ -382,6 +418,10 @@ class Folder:
             if isinstance(cur, dict) and p in cur:
                 # an object described by its attributes (case evaluation: {'safi': 128})
                 cur = cur[p]
+                continue
+            if isinstance(cur, str) and p in ('value', 'name') and hasattr(cur, p):
+                # a member of a str enumeration handed to an evaluation (sa.evalfn.EnumMember)
+                cur = getattr(cur, p)
                 continue
             if isinstance(cur, ClassRef):
                 cur = self.class_attr(cur.qualname, p)
